@@ -64,4 +64,53 @@ def maybe_promote (self other : Obj) (same selfC otherC otherSubSelf selfSubOthe
   .ok { d with state := if d.ref = "self" then self
                         else if eSafe (decFlags other) then other else Obj.set other "_safe" (.bool false) }
 
+def ayns_explicit_delete (self : Obj) : PV := encOB (decFlags self).del
+
+def require_all_new_leaf (self : Obj) (exceptions includeSelf : PV) (notExcepted _excepted : Bool) : PV :=
+  if !pyTruthy includeSelf then .none
+  else
+    let noExc := match exceptions with | .none => true | _ => false
+    if !eNew (decFlags self) && (noExc || notExcepted) then .exc "ValueError" else .none
+
+def merge_none (self : Obj) : Res RefRes :=
+  if eNew (decFlags self) then .ok { ref := "self", state := self, effects := [] } else .exc "ValueError"
+
+def func_on_merge_impl (self other : Obj) (otherStr : PV) (otherIsStr : Bool) : Res RefRes :=
+  let sf := decFlags self
+  let d := funcDecision sf (decStr (self "_func")) (decFlags other) (decDD other)
+             (if otherIsStr then some (decStr otherStr) else none) (decFuncAttr (other "_func"))
+  match d with
+  | .done fl g c => .ok { ref := "self", state := encNodeObj fl (decDD self) (.str g),
+                          effects := if c then ["self.clear()"] else [] }
+  | .fall g c => .ok { ref := "fallthrough", state := encNodeObj sf (decDD self) (.str g),
+                       effects := (if c then ["self.clear()"] else []) ++ ["super.on_merge_impl(_, other)"] }
+
+def keep_if_exists (node current : Obj) : Res (PV × List String) :=
+  if !eDelF (decFlags node) (decDD node) then .ok (.bool true, [])
+  else .ok (.bool (hasPrio (decFlags node) (decFlags current) true), ["self.get_first_not_missing_node(path)"])
+
+def maybe_keep (node otherNode : Obj) : Res (PV × List String) :=
+  .ok (.bool (hasPrio (decFlags node) (decFlags otherNode) false), ["other.get_first_not_missing_node(_)"])
+
+def list_on_merge_impl (other : Obj) (otherIsDict otherComposed keysInvalid : Bool) : Res (String × List String) :=
+  if otherIsDict && !eDelF (decFlags other) (decDD other) && keysInvalid then .exc "MergeError"
+  else .ok ("fallthrough", (if otherComposed then ["other.filter_nodes(keep_if_exists)"] else []) ++ ["super.on_merge_impl(_, other)"])
+
+/-- the branch structure of `mergeStep` as the list of calls the key loop makes -/
+def key_loop (value merged : Obj) (childMissing childComposed mergedTruthy mergedIsChild : Bool) : Res (List String) :=
+  if childMissing then
+    .ok ["self.get_child(key, None)", "value._require_all_new(_, _, exceptions=_)", "self.set_child(key, value)"]
+  else
+    let pre := ["self.get_child(key, None)", "child.on_merge(_, value)"]
+    if childComposed then
+      if !mergedTruthy && !hasPrio (decFlags merged) (decFlags value) false && (decFlags value).del == some true then
+        .ok (pre ++ ["self.remove_child(key)"])
+      else if mergedIsChild then .ok pre
+      else .ok (pre ++ ["self.set_child(key, merged)"])
+    else
+      if mergedIsChild then .ok pre
+      else if !mergedTruthy && (decFlags merged).del == some true then
+        .ok (pre ++ ["merged._require_all_new(_, _, include_self=False)", "self.remove_child(key)"])
+      else .ok (pre ++ ["merged._require_all_new(_, _, include_self=False)", "self.set_child(key, merged)"])
+
 end AY.Tie.Fallback
